@@ -705,6 +705,12 @@ func (s *ObjectStorage) DeltaObject(t plumbing.ObjectType, h plumbing.Hash) (plu
 	if errors.Is(err, plumbing.ErrObjectNotFound) {
 		obj, err = s.getFromPackfile(h, true)
 	}
+	// Like EncodedObject, fall back to the alternates.
+	if errors.Is(err, plumbing.ErrObjectNotFound) {
+		return findInAlternates(s, func(alt *ObjectStorage) (plumbing.EncodedObject, error) {
+			return alt.DeltaObject(t, h)
+		})
+	}
 
 	if err != nil {
 		return nil, err
